@@ -398,6 +398,28 @@ template <class WT> struct Runner {
 };
 
 // ------------------------------------------------ conversions: assign_r(To, From) and construct(To, From)
+// rational -> floating point: additional sources in the denormal range of the destination and around its smallest
+// normal number: {1,3,5,7,-1,-5} / ({7,3,5,1} * 2^k), k from 6 below -log2(min) to 6 beyond -log2(denorm_min),
+// plus the same family around the largest finite number (n * 2^k / d)
+template <class TT, class FT, TClass CT = TI<TT>::cls, TClass CF = TI<FT>::cls> struct ConvExtra {
+  static void add(Alpha<FT>&) {}
+};
+template <class TT> struct ConvExtra<TT, mpq_class, TC_FLT, TC_MPQ> {
+  static void add(Alpha<mpq_class>& a) {
+    typedef std::numeric_limits<TT> L;
+    const int dens[] = {7, 3, 5, 1}, nums[] = {1, 3, 5, 7, -1, -5};
+    const int k0 = -L::min_exponent - 5, k1 = -L::min_exponent + L::digits + 6;
+    for (int k = k0; k <= k1; ++k) for (int di = 0; di < 4; ++di) for (int ni = 0; ni < 6; ++ni) {
+      mpz_class den(dens[di]); den <<= k; mpq_class q(mpz_class(nums[ni]), den); q.canonicalize();
+      Ent<mpq_class> e; e.raw = q; e.xv = XVal(q); a.v.push_back(e);
+    }
+    for (int k = L::max_exponent - 4; k <= L::max_exponent + 2; ++k) for (int di = 0; di < 3; ++di) for (int ni = 0; ni < 6; ++ni) {
+      mpz_class num(nums[ni]); num <<= k; mpq_class q(num, mpz_class(dens[di])); q.canonicalize();
+      Ent<mpq_class> e; e.raw = q; e.xv = XVal(q); a.v.push_back(e);
+    }
+  }
+};
+
 template <class WTo, class WFrom, bool WithConstruct> struct Conv {
   typedef typename WTo::W TW; typedef typename WTo::Raw TT; typedef typename WFrom::W FW; typedef typename WFrom::Raw FT;
   typedef std::shared_ptr<Alpha<FT> > AP;
@@ -438,6 +460,7 @@ template <class WTo, class WFrom, bool WithConstruct> struct Conv {
   }
   static void reg() {
     AP A(new Alpha<FT>(AlphaOf<FT, typename WFrom::FromP>::make(false)));
+    ConvExtra<TT, FT>::add(*A);
     Cell c; c.type = std::string(TI<TT>::name()) + "<-" + TI<FT>::name(); c.policy = std::string(WTo::pname()) + "<-" + WFrom::pname();
     c.group = "conversion"; c.fam = FAM_CONV; c.nsub = (long long)A->size(); c.nops = WithConstruct ? 2 : 1; c.ndirs = 8;
     using namespace std::placeholders;
